@@ -254,8 +254,12 @@ class SimTor:
         self.next_service += 1
         sid = 'svc%dabcdefghijkl' % self.next_service
         sid = sid[:16]
-        self.service_ids.append(sid)
         words = rest.split(' ')
+        real = getattr(self, 'real_rsa', None)
+        if real is not None and words[0].startswith('NEW:') and any(w.startswith('Flags=') and 'BasicAuth' in w for w in words[1:]):
+            # an authenticated version-2 service is recognised by the permanent id of its key: hand out a real one
+            sid = real[1]
+        self.service_ids.append(sid)
         req = {'key': words[0], 'ports': [], 'flags': [], 'clients': [], 'raw': rest, 'id': sid}
         for w in words[1:]:
             if w.startswith('Port='):
@@ -268,7 +272,9 @@ class SimTor:
                 req.setdefault('other', []).append(w)
         self.onions.append(req)
         out = '250-ServiceID=%s\r\n' % sid
-        if req['key'].startswith('NEW:') and 'DiscardPK' not in req['flags']:
+        if real is not None and sid == real[1] and 'DiscardPK' not in req['flags']:
+            out += '250-PrivateKey=%s\r\n' % real[0]
+        elif req['key'].startswith('NEW:') and 'DiscardPK' not in req['flags']:
             out += '250-PrivateKey=%s:blob%d\r\n' % ('ED25519-V3' if 'V3' in req['key'] else 'RSA1024', self.next_service)
         for c in req['clients']:
             if ':' not in c:
